@@ -20,8 +20,9 @@ from katdal.categorical import CategoricalData, ComparableArrayWrapper
 from katdal.sensordata import SensorCache, SimpleSensorGetter
 from katdal.visdatav4 import SENSOR_PROPS, _normalise_cal_products
 
-RULE = ('solution histories in polar form (magnitudes 2^k or k/4, phases multiples of 1/16..1/48 turn, never a step of '
-        'exactly half a turn between consecutive valid solutions): (ci) complex_interp on random nodes / abscissae '
+RULE = ('solution histories in polar form (magnitudes 2^k or k/4; phases k/odd turns that wrap freely (complex128) or '
+        'k/16..k/48 turns inside a window narrower than half a turn (complex64); no two phases of one history differ by '
+        'exactly half a turn): (ci) complex_interp on random nodes / abscissae '
         '(nodes, midpoints, outside, dyadic points) x left/right in {None, INVALID_GAIN, value} x complex64/128; '
         '(K) delays with NaN; (B) bandpasses with NaN runs incl. edges and all-NaN, data channels on/between/outside '
         'cal channels; (G) gain histories with the INVALID_GAIN placeholder, NaN solutions, 1 or several channels, '
